@@ -32,8 +32,9 @@ RULE = ('one evaluation = one sampled cache (Cache or FanoutCache shards; 4-14 i
         'program, damage list)')
 RULE += ' ' + 'Unknown files also get hidden (dot-prefixed, .nfs), backup (~) names and hidden directories; two damage subsets of one seed in 23 run in child interpreters started with -W ignore and -W error::UserWarning.'
 RULE += ' ' + 'Directory spellings include a symbolic link to the real directory.'
+RULE += ' ' + "Directory spellings include '~/name' and '$VAR/name'; unknown files include copies of a live value file under its own name in another directory."
 ASSUMPTIONS = ['damage is applied while no operation is in flight', 'truncation of text happens on a code-point boundary and extension appends ASCII, except in the low-rate probe of known finding F14']
-PROBES = ('damage_items', 'fanout_runs', 'rows_removed_by_fix', 'f14_probe', 'dir_spelled_dot', 'dir_spelled_double', 'dir_spelled_trailing', 'dir_spelled_dotdot', 'dir_spelled_relative', 'dir_spelled_symlink', 'more_than_100_file_rows', 'journal_mode_not_wal', 'mass_loss', 'unknown_hidden_name')
+PROBES = ('damage_items', 'fanout_runs', 'rows_removed_by_fix', 'f14_probe', 'dir_spelled_dot', 'dir_spelled_double', 'dir_spelled_trailing', 'dir_spelled_dotdot', 'dir_spelled_relative', 'dir_spelled_symlink', 'dir_spelled_tilde', 'dir_spelled_envvar', 'unknown_named_like_value_file', 'more_than_100_file_rows', 'journal_mode_not_wal', 'mass_loss', 'unknown_hidden_name')
 TECHNIQUE = 'deterministic simulation with out-of-band damage injection: damage-kind subsets enumerated per sampled cache; report / convergence / undamaged-intact oracle with an independent auditor'
 LEVEL_TEXT = ('fault enumeration over damage-kind subsets: caches are sampled by seed, and for each cache every non-empty subset of the '
               'seven damage kinds is applied (thorough tier); the oracle knows exactly what it damaged and compares the two warning lists per '
@@ -80,7 +81,7 @@ def gen_case(seed, tier):
            # SQLite keeps other files next to cache.db under the other (documented) journal modes
            'journal': rng.choice(('wal', 'wal', 'wal', 'truncate', 'persist', 'delete')),
            # how the caller spells the directory: check() compares paths it builds from rows with paths it finds by walking
-           'dirform': rng.choice(('plain', 'plain', 'plain', 'dot', 'double', 'trailing', 'dotdot', 'relative', 'relative-dot', 'symlink'))}
+           'dirform': rng.choice(('plain', 'plain', 'plain', 'dot', 'double', 'trailing', 'dotdot', 'relative', 'relative-dot', 'symlink', 'tilde', 'envvar'))}
     return {'seed': seed, 'cfg': cfg, 'items': items, 'damage': []}
 
 
@@ -90,7 +91,7 @@ def gen_damage(rng, kinds):
     for kind in kinds:
         for _ in range(rng.choice((1, 1, 2))):
             plan.append({'kind': kind, 'pick': rng.random(), 'arg': rng.choice((1, 2, 3, 7)), 'where': rng.choice(('top', 'nested', 'beside')),
-                         'cancel': rng.random() < 0.3, 'neg': rng.random() < 0.3})
+                         'cancel': rng.random() < 0.3, 'neg': rng.random() < 0.3, 'style': rng.choice((0, 0, 1, 2, 3, 4, 5))})
     return plan
 
 
@@ -111,6 +112,15 @@ def spelled(world, name, form):
         if not os.path.islink(world.path(name)):
             os.symlink(world.path(name + '-real'), world.path(name))
         return world.path(name)
+    if form == 'tilde':
+        # '~/name' with HOME pointing at the scratch root (restored by run_case)
+        os.environ['HOME'] = world.root
+        os.chdir(world.root)
+        return '~/' + name
+    if form == 'envvar':
+        os.environ['SIMDC_C17_ROOT'] = world.root
+        os.chdir(world.root)
+        return '$SIMDC_C17_ROOT/' + name
     if form in ('relative', 'relative-dot'):
         os.chdir(world.root)
         return name if form == 'relative' else './' + name
@@ -125,6 +135,7 @@ def run_case(case):
     if cfg.get('mass_loss'):
         world.sim.var_limit = 999
     cwd = os.getcwd()
+    home = os.environ.get('HOME')
     try:
         dc = world.dc
         form = cfg.get('dirform', 'plain')
@@ -231,8 +242,16 @@ def run_case(case):
                     rel = os.path.join(os.path.dirname(rows[0][10]), 'orphan%d.val' % d['arg'])
                 # what other tools leave behind: hidden names (a killed rsync's partial copy, .nfs files), backup and
                 # extension-less names - whatever it is called, a file no row refers to is an unknown file
-                style = d['arg'] % 5
+                style = d.get('style', d['arg'] % 5)
                 head, base = os.path.split(rel)
+                live = [r[10] for r in rows if r[10]]
+                if style == 5 and live:
+                    # a copy of a live value file under its own name somewhere else (a restored backup, `cp -r ab ab.bak`): the
+                    # name is known, the file in this place is not
+                    base = os.path.basename(live[0])
+                    if d['where'] not in ('top', 'nested'):
+                        head = os.path.dirname(live[0]) + '.bak'
+                    probes['unknown_named_like_value_file'] = 1
                 if style == 1:
                     base = '.' + base + '.Xy12Zq'
                 elif style == 2:
@@ -373,6 +392,11 @@ def run_case(case):
         top.close()
     finally:
         os.chdir(cwd)
+        if home is None:
+            os.environ.pop('HOME', None)
+        else:
+            os.environ['HOME'] = home
+        os.environ.pop('SIMDC_C17_ROOT', None)
         world.close()
     digest = hashlib.sha256(json.dumps(case, sort_keys=True).encode()).hexdigest()
     return {'violations': violations, 'digest': digest, 'steps': len(case['items']) + len(case['damage']), 'switches': 0,
